@@ -255,16 +255,16 @@ Proof.
   - (* PDone *) split; assumption.
 Qed.
 
-Lemma run_inv sched : Inv (run cinst cmulti roots paths true true sched).
+Lemma run_inv sched : Inv (run_sched cinst cmulti roots paths true true sched).
 Proof.
-  unfold run. assert (H : Inv state0) by apply inv0. revert H. generalize state0.
+  unfold run_sched. assert (H : Inv state0) by apply inv0. revert H. generalize state0.
   induction sched as [|i sched IH]; intros st H; simpl; [exact H|]. apply IH, step_inv, H.
 Qed.
 
 (* every finished lookup, under every schedule and any number of threads, answered like the
    serial lookup *)
 Theorem compile_race_safe sched i r :
-  result_of (run cinst cmulti roots paths true true sched) i = Some r -> r = serial i.
+  result_of (run_sched cinst cmulti roots paths true true sched) i = Some r -> r = serial i.
 Proof.
   unfold result_of. intro H. destruct (run_inv sched) as [_ HT]. specialize (HT i).
   destruct (s_pc _ i); try discriminate. injection H as <-. exact HT.
@@ -272,8 +272,8 @@ Qed.
 
 (* the slot only ever holds the compilation of the current tree, with its tables in place *)
 Theorem slot_consistent sched v :
-  s_slot (run cinst cmulti roots paths true true sched) = Compiled v ->
-  final (run cinst cmulti roots paths true true sched) v.
+  s_slot (run_sched cinst cmulti roots paths true true sched) = Compiled v ->
+  final (run_sched cinst cmulti roots paths true true sched) v.
 Proof. intro H. destruct (run_inv sched) as [HG _]. unfold GI in HG. rewrite H in HG. exact HG. Qed.
 
 (* mutual exclusion: two threads inside `with self._compile_lock` are the same thread *)
@@ -281,7 +281,7 @@ Definition crit (p : pc) : bool :=
   match p with PChk | PC1 | PC2 | PC3 | PGen _ _ | PRel => true | _ => false end.
 
 Theorem mutual_exclusion sched i j :
-  let st := run cinst cmulti roots paths true true sched in
+  let st := run_sched cinst cmulti roots paths true true sched in
   crit (s_pc st i) = true -> crit (s_pc st j) = true -> i = j.
 Proof.
   intros st Hi Hj. destruct (run_inv sched) as [_ HT]. fold st in HT.
@@ -380,7 +380,7 @@ Definition w_sched_norecheck : list nat :=
 Theorem lock_needed :
   wf ex_cinst ex_multi w_tree = true /\
   exists sched i r,
-    result_of (run ex_cinst ex_multi w_tree w_paths false true sched) i = Some r /\
+    result_of (run_sched ex_cinst ex_multi w_tree w_paths false true sched) i = Some r /\
     r <> serial ex_cinst ex_multi w_tree w_paths i.
 Proof.
   split; [vm_compute; reflexivity|]. exists w_sched_nolock, 0, Crash.
@@ -389,7 +389,7 @@ Qed.
 
 Theorem recheck_needed :
   exists sched i r,
-    result_of (run ex_cinst ex_multi w_tree w_paths true false sched) i = Some r /\
+    result_of (run_sched ex_cinst ex_multi w_tree w_paths true false sched) i = Some r /\
     r <> serial ex_cinst ex_multi w_tree w_paths i.
 Proof.
   exists w_sched_norecheck, 2, Crash.
@@ -399,8 +399,8 @@ Qed.
 (* non-vacuity of compile_race_safe: under the same schedules the real protocol finishes the
    lookups, with the serial answer *)
 Example safe_instance :
-  result_of (run ex_cinst ex_multi w_tree w_paths true true (w_sched_nolock ++ repeat 1 30)) 0
+  result_of (run_sched ex_cinst ex_multi w_tree w_paths true true (w_sched_nolock ++ repeat 1 30)) 0
   = Some (serial ex_cinst ex_multi w_tree w_paths 0) /\
-  result_of (run ex_cinst ex_multi w_tree w_paths true true (w_sched_nolock ++ repeat 1 30)) 1
+  result_of (run_sched ex_cinst ex_multi w_tree w_paths true true (w_sched_nolock ++ repeat 1 30)) 1
   = Some (serial ex_cinst ex_multi w_tree w_paths 1).
 Proof. vm_compute. split; reflexivity. Qed.
